@@ -211,6 +211,13 @@ func classifyMapRange(p *packages.Package, fd *ast.FuncDecl, rs *ast.RangeStmt, 
 							other = append(other, "map insert under a key that does not depend on the element (last writer wins)")
 							continue
 						}
+						// filling a slice by index is building it in map order, like append: it must be sorted before use
+						if xid, ok := lx.X.(*ast.Ident); ok {
+							if _, isSlice := info.TypeOf(lx.X).Underlying().(*types.Slice); isSlice && info.ObjectOf(xid) != nil {
+								appended[info.ObjectOf(xid)] = true
+								continue
+							}
+						}
 						other = append(other, "indexed assignment to a non-map")
 					case *ast.Ident:
 						if lx.Name == "_" {
